@@ -1,6 +1,6 @@
 import ExprModel.Proofs.LexNumber
 import ExprModel.Proofs.LexString
-import ExprModel.Proofs.LexPos
+import ExprModel.Proofs.LexLoop
 import ExprModel.Proofs.LexNumTok
 import ExprModel.Gen.LexTables
 /-
@@ -257,6 +257,11 @@ theorem lex_ends_with_eof (cc : CharClass) (src : String) (toks : List Token)
     (h : lex cc LexTables.std src = .ok toks) :
     ∃ ts t, toks = ts ++ [t] ∧ t.kind = .eof ∧ ∀ x ∈ ts, x.kind ≠ .eof :=
   (token_positions cc src toks h).last_eof
+
+/-- **lex_total**: the fuel of the model's main loop (`|source| + 1` root steps) is never what ends a run:
+every step reads at least one rune or stops (the lexer's termination measure, DESIGN Appendix D) -/
+theorem lex_total (cc : CharClass) (src : String) (e : LexErr) (h : lex cc LexTables.std src = .error e) :
+    e.2 ≠ "fuel" := lexChars_no_fuel cc src.toList e h
 
 /-- what `posOf` is: the line is 1 + the number of line feeds before, the column the number of runes
 since the last line feed (or since the start) -/
